@@ -97,6 +97,23 @@ Fixpoint first_some {A B} (f : A -> option B) (l : list A) : option B :=
   | a :: r => match f a with Some b => Some b | None => first_some f r end
   end.
 
+(** every successful alternative, merged by the pointwise minimum of the contexts: the model's
+    key counters are lower bounds of the implementation's (a key handed out is at least the
+    counter), and which alternative really happened is not observable — e.g. a new map element
+    equal to an unchanged clone of one element is also a mutated clone of another, and only the
+    second explanation advances a nested counter *)
+Definition ctx_min (c1 c2 : pctx) : pctx := map (fun qn => (fst qn, N.min (snd qn) (get_nk c2 (fst qn)))) c1.
+Fixpoint merge_some {A} (f : A -> option pctx) (l : list A) : option pctx :=
+  match l with
+  | [] => None
+  | a :: r =>
+      match f a, merge_some f r with
+      | Some c, Some c' => Some (ctx_min c c')
+      | Some c, None => Some c
+      | None, o => o
+      end
+  end.
+
 Definition keys_n {A} (m : list (N * A)) : list N := map fst m.
 Definition remove_key {A} (k : N) (m : list (N * A)) : list (N * A) :=
   filter (fun kv => negb (N.eqb (fst kv) k)) m.
@@ -188,7 +205,7 @@ Section Mut.
           | Some y =>
               let c1 := set_nk c p (ka + 1) in
               let sources := match m with [] => [init_val vt] | _ => map snd m end in
-              match first_some (fun e => chk (p ++ [PKey ka]) c1 e y) sources with
+              match merge_some (fun e => chk (p ++ [PKey ka]) c1 e y) sources with
               | None => None
               | Some c2 => map_children chk p (remove_key ka m) (remove_key ka m') c2
               end
